@@ -376,7 +376,7 @@ def _strategy():
         watchers = []
         gts = []
         for i in range(nw):
-            gt = draw(st.sampled_from([0.1, 0.3, 1.0]))
+            gt = draw(st.sampled_from([0.1, 0.3, 1.0, 0.1, 0.3, 0]))
             gts.append(gt)
             wc = {"name": "w%d" % i,
                   "numprocesses": draw(st.integers(0, 3)),
@@ -416,7 +416,11 @@ def _strategy():
                 {"name": name, "options": st.sampled_from(
                     [{"numprocesses": 2}, {"numprocesses": 0},
                      {"graceful_timeout": 0.2}, {"warmup_delay": 0.1},
-                     {"stop_signal": 2}])})),
+                     {"stop_signal": 2}, {"cmd": "other --wid $(circus.wid)"},
+                     {"env": {"A": "b"}}, {"max_age": 0},
+                     {"working_dir": "/tmp"}, {"args": ["x"]},
+                     {"shell": False},
+                     {"numprocesses": 1, "max_age_variance": 3}])})),
             req('start', st.fixed_dictionaries(
                 {"name": name, "match": st.just("simple"), "waiting": wt})),
             req('reload', st.fixed_dictionaries({"name": name})),
